@@ -558,6 +558,10 @@ pub struct Case06 {
     /// capability sets of the conforming demand-active that activated the session (0 = the captured Windows list)
     #[serde(default)]
     pub caps: u8,
+    /// a fault in the demand-active that ACTIVATES the session (a value the client accepts there may only take effect in a
+    /// later PDU); if the client refuses the faulted demand-active the case ends
+    #[serde(default)]
+    pub act: Option<FaultKind>,
 }
 
 /// legal variations of the demand-active's capability list: order, subsets, unknown sets only, none
@@ -689,10 +693,46 @@ pub fn run06(c: &Case06) -> Outcome {
             }
         }
     }
-    for f in prefix.iter().take(state) {
+    for (i, f) in prefix.iter().take(state).enumerate() {
+        if let (0, Some(k)) = (i, &c.act) {
+            let (bytes, _) = apply_fault(f, k);
+            let n = bytes.len();
+            h.borrow_mut().push(&bytes);
+            h.borrow_mut().eof_reads = 0;
+            let (r, st) = call(|| conn.client.read(|_| ()));
+            match r {
+                Res::Panic(p) => {
+                    fail_panic(&mut out, "RdpClient::read(activating)", &p);
+                    return out;
+                }
+                Res::Err(_) => {
+                    out.label("act:refused");
+                    return out;
+                }
+                Res::Ok(()) => {
+                    out.label("act:accepted");
+                }
+            }
+            finish(&mut out, "RdpClient::read(activating)", &st, n, Some(&h));
+            if out.failed() {
+                return out;
+            }
+            {
+                let mut sh = h.borrow_mut();
+                sh.to_client.clear();
+                sh.eof_reads = 0;
+                sh.spin = false;
+            }
+            continue;
+        }
         h.borrow_mut().push(&f.bytes);
         let (r, _) = call(|| conn.client.read(|_| ()));
         if !r.is_ok() {
+            if c.act.is_some() {
+                // the faulted demand-active was consumed without an error but left the client unable to go on
+                out.label("act:stuck");
+                return out;
+            }
             out.fail("panic:HARNESS-FAULT c06 prefix", format!("conforming prefix rejected in state {}", state));
             return out;
         }
@@ -814,7 +854,13 @@ pub fn decode06(s: &mut Src) -> Case06 {
     };
     let fault = if matches!(kind, PduKind::RawShare(_) | PduKind::RawFastPath(_) | PduKind::RawFrame(_) | PduKind::Batch(_)) && s.bool() { None } else { Some(gen_fault_kind(s)) };
     let fault2 = if fault.is_some() && s.chance(64) { Some(gen_fault_kind(s)) } else { None };
-    Case06 { state, kind, fault, fault2, cycles: if long { 1 + s.below(300) as u16 } else { 0 }, caps }
+    // a fault in the activating demand-active, mostly in the words of its capability bodies
+    let act = if state > 0 && s.chance(64) {
+        Some(if s.chance(200) { FaultKind::SetField { field: 20 + s.below(260) as u16, value: s.pick(&[0u32, 1, 0x7FFF, 0x8000, 0xFFFF, 0xFFFF_FFFF, 0x100, 0xFF]) } } else { gen_fault_kind(s) })
+    } else {
+        None
+    };
+    Case06 { state, kind, fault, fault2, cycles: if long { 1 + s.below(300) as u16 } else { 0 }, caps, act }
 }
 
 fn sweep06(tier: Tier, part: usize, parts: usize) -> impl Iterator<Item = Case06> {
@@ -841,14 +887,14 @@ fn sweep06(tier: Tier, part: usize, parts: usize) -> impl Iterator<Item = Case06
         for st in states {
             for (fi, w) in scalars.iter().enumerate() {
                 for val in values_for(*w) {
-                    v.push(Case06 { state: st, kind: kind.clone(), fault: Some(FaultKind::SetField { field: fi as u16, value: val }), fault2: None, cycles: 0, caps: 0 });
+                    v.push(Case06 { state: st, kind: kind.clone(), fault: Some(FaultKind::SetField { field: fi as u16, value: val }), fault2: None, cycles: 0, caps: 0, act: None });
                 }
             }
             for t in 0..b.bytes.len().min(400) {
-                v.push(Case06 { state: st, kind: kind.clone(), fault: Some(FaultKind::Truncate(t as u16)), fault2: None, cycles: 0, caps: 0 });
+                v.push(Case06 { state: st, kind: kind.clone(), fault: Some(FaultKind::Truncate(t as u16)), fault2: None, cycles: 0, caps: 0, act: None });
             }
             for e in [vec![0u8], vec![0xFF; 5], vec![3, 0, 0, 4]] {
-                v.push(Case06 { state: st, kind: kind.clone(), fault: Some(FaultKind::Extend(e)), fault2: None, cycles: 0, caps: 0 });
+                v.push(Case06 { state: st, kind: kind.clone(), fault: Some(FaultKind::Extend(e)), fault2: None, cycles: 0, caps: 0, act: None });
             }
         }
     }
@@ -869,7 +915,7 @@ fn short_strings06(part: usize, parts: usize) -> impl Iterator<Item = Case06> {
         let data: Vec<u8> = (0..len).map(|j| ((k >> (8 * j)) & 0xFF) as u8).collect();
         let state = if which & 1 == 0 { 5 } else { 0 };
         let kind = if which & 2 == 0 { PduKind::RawShare(data) } else { PduKind::RawFastPath(data) };
-        Case06 { state, kind, fault: None, fault2: None, cycles: 0, caps: 0 }
+        Case06 { state, kind, fault: None, fault2: None, cycles: 0, caps: 0, act: None }
     })
 }
 
@@ -884,7 +930,7 @@ fn batches06() -> Vec<Case06> {
                 // keep the frame below the TPKT limit
                 let per = share_pdu(k, SHARE).map(|b| b.bytes.len()).unwrap_or(1).max(1);
                 let n = n.min(60000 / per);
-                v.push(Case06 { state: st, kind: PduKind::Batch(vec![k.clone(); n]), fault: None, fault2: None, cycles: 0, caps: 0 });
+                v.push(Case06 { state: st, kind: PduKind::Batch(vec![k.clone(); n]), fault: None, fault2: None, cycles: 0, caps: 0, act: None });
             }
         }
     }
@@ -892,24 +938,24 @@ fn batches06() -> Vec<Case06> {
     for caps in 1..10u8 {
         for st in 0..6u8 {
             for k in KINDS.iter() {
-                v.push(Case06 { state: st, kind: k.clone(), fault: None, fault2: None, cycles: 0, caps });
+                v.push(Case06 { state: st, kind: k.clone(), fault: None, fault2: None, cycles: 0, caps, act: None });
             }
         }
     }
     // padded PDUs: every size that moves the PDU / MCS / TPKT lengths across 0x80, 0x4000 and towards 0x7FFF
     for n in (0..200u16).chain(15700..16100).chain(32000..32300) {
-        v.push(Case06 { state: 0, kind: PduKind::DemandActivePadded(n), fault: None, fault2: None, cycles: 0, caps: 0 });
-        v.push(Case06 { state: 5, kind: PduKind::DataPadded(n), fault: None, fault2: None, cycles: 0, caps: 0 });
+        v.push(Case06 { state: 0, kind: PduKind::DemandActivePadded(n), fault: None, fault2: None, cycles: 0, caps: 0, act: None });
+        v.push(Case06 { state: 5, kind: PduKind::DataPadded(n), fault: None, fault2: None, cycles: 0, caps: 0, act: None });
     }
     // a demand-active with each extended capability list (repeated sets ...) in every state, fresh and after one or two earlier
     // activations that used each of several other lists
     for v2 in 0..16u8 {
         for st in 0..6u8 {
-            v.push(Case06 { state: st, kind: PduKind::DemandActiveCaps(v2), fault: None, fault2: None, cycles: 0, caps: 0 });
+            v.push(Case06 { state: st, kind: PduKind::DemandActiveCaps(v2), fault: None, fault2: None, cycles: 0, caps: 0, act: None });
         }
         for caps in [0u8, 2, 3, 6, 7] {
             for cycles in [1u16, 2] {
-                v.push(Case06 { state: 0, kind: PduKind::DemandActiveCaps(v2), fault: None, fault2: None, cycles, caps });
+                v.push(Case06 { state: 0, kind: PduKind::DemandActiveCaps(v2), fault: None, fault2: None, cycles, caps, act: None });
             }
         }
     }
@@ -917,26 +963,62 @@ fn batches06() -> Vec<Case06> {
     for st in 0..6u8 {
         for k in 0..12u8 {
             for cycles in [0u16, 1] {
-                v.push(Case06 { state: st, kind: PduKind::EchoClient(k), fault: None, fault2: None, cycles, caps: 0 });
+                v.push(Case06 { state: st, kind: PduKind::EchoClient(k), fault: None, fault2: None, cycles, caps: 0, act: None });
             }
         }
     }
     for cycles in [255u16, 256, 257, 300] {
         for k in [PduKind::DeactivateAll, PduKind::DemandActive, PduKind::FpBitmap] {
-            v.push(Case06 { state: 5, kind: k, fault: None, fault2: None, cycles, caps: 0 });
+            v.push(Case06 { state: 5, kind: k, fault: None, fault2: None, cycles, caps: 0, act: None });
         }
     }
     for st in 0..6u8 {
         for a in slow {
             for b in slow {
-                v.push(Case06 { state: st, kind: PduKind::Batch(vec![a.clone(), b.clone()]), fault: None, fault2: None, cycles: 0, caps: 0 });
+                v.push(Case06 { state: st, kind: PduKind::Batch(vec![a.clone(), b.clone()]), fault: None, fault2: None, cycles: 0, caps: 0, act: None });
                 for c in slow {
-                    v.push(Case06 { state: st, kind: PduKind::Batch(vec![a.clone(), b.clone(), c.clone()]), fault: None, fault2: None, cycles: 0, caps: 0 });
+                    v.push(Case06 { state: st, kind: PduKind::Batch(vec![a.clone(), b.clone(), c.clone()]), fault: None, fault2: None, cycles: 0, caps: 0, act: None });
                 }
             }
         }
     }
     v
+}
+
+/// every boundary value in every 16-bit word of every capability body of the ACTIVATING demand-active, followed (once the
+/// session is active) by each fast-path kind with every fragmentation / compression nibble in its first update header, and by
+/// each slow-path kind: values the client stores at activation and uses later
+fn accepted_then_pdu(part: usize, parts: usize) -> impl Iterator<Item = Case06> {
+    let su = 1002u16;
+    let d = DemandActive { share_id: SHARE, source: b"RDP\0".to_vec(), caps: wire::sample_server_caps(), session_id: 0 };
+    let da = wire::send_data_indication(su, 1003, &wire::demand_active(&d, su));
+    let scalars: Vec<&refimpl::rd::Field> = da.fields.iter().filter(|f| f.width > 0 && f.off + f.width as usize <= da.bytes.len()).collect();
+    let words: Vec<u16> = scalars.iter().enumerate().filter(|(_, f)| f.name.contains("capabilityData.")).map(|(i, _)| i as u16).collect();
+    let mut follow: Vec<(PduKind, Option<FaultKind>)> = Vec::new();
+    for k in [PduKind::FpBitmap, PduKind::FpPointer, PduKind::FpSync, PduKind::FpUnknown] {
+        let b = base_frame(&k, SHARE);
+        let sc: Vec<&refimpl::rd::Field> = b.fields.iter().filter(|f| f.width > 0 && f.off + f.width as usize <= b.bytes.len()).collect();
+        let hdr = sc.iter().position(|f| f.name.ends_with("updateHeader"));
+        follow.push((k.clone(), None));
+        if let Some(hi) = hdr {
+            let code = b.bytes[sc[hi].off] & 0x0F;
+            for nib in 1..16u32 {
+                follow.push((k.clone(), Some(FaultKind::SetField { field: hi as u16, value: (nib << 4) | code as u32 })));
+            }
+        }
+    }
+    for k in KINDS[..7].iter() {
+        follow.push((k.clone(), None));
+    }
+    let values = [0xFFFFu32, 0x8000, 0, 0x7FFF, 1];
+    let total = words.len() * values.len() * follow.len();
+    (part..total).step_by(parts.max(1)).map(move |i| {
+        let (kind, fault) = follow[i % follow.len()].clone();
+        let j = i / follow.len();
+        let value = values[j % values.len()];
+        let field = words[j / values.len()];
+        Case06 { state: 5, kind, fault, fault2: None, cycles: 0, caps: 0, act: Some(FaultKind::SetField { field, value }) }
+    })
 }
 
 /// one capability set handed to the capability parser directly: type, length, body
@@ -1027,6 +1109,8 @@ pub fn check06(rep: &Report) {
     rep.enumerate("field-sweep", true, move |p, n| sweep06(tier, p, n), run06);
     rep.enumerate("short-strings", true, short_strings06, run06);
     rep.list("batched-frames", batches06(), run06);
+    rep.enumerate("accepted-values-then-pdu", true, accepted_then_pdu, run06);
+    rep.require("accepted-values-then-pdu", "act:accepted", 20000);
     rep.enumerate("capability-words", true, cap_words, run_cap);
     rep.random("capability-sets", rep.tier.n(200_000, 4_000_000), 160, decode_cap, run_cap);
     rep.random("faults", rep.tier.n(100_000, 6_000_000), 120, decode06, run06);
@@ -1035,4 +1119,5 @@ pub fn check06(rep: &Report) {
     for st in ["state0-demand", "state1-sync", "state2-coop", "state3-granted", "state4-fontmap", "state5-active"] {
         rep.require("faults", st, 5000);
     }
+    rep.require("faults", "act:accepted", 300);
 }
